@@ -73,3 +73,68 @@ Proof.
          [(1, 10); (2, 11)], [(1, 20); (2, 21)].
   repeat split; try (vm_compute; congruence).
 Qed.
+
+(* ---------------------------------------------------------------- pool exclusivity *)
+From Coq Require Import Permutation.
+
+Definition pobjs (st : pstate) : list nat := map snd (pheld st) ++ ppool st.
+Definition pinv (st : pstate) : Prop := NoDup (pobjs st) /\ Forall (fun o => o < pnext st) (pobjs st).
+
+Lemma nth_remove_perm {A} : forall (l : list A) i o, nth_error l i = Some o ->
+  Permutation l (o :: remove_nth i l).
+Proof.
+  induction l as [|x r IH]; intros i o H; destruct i; simpl in *; try discriminate.
+  - inversion H; subst. apply Permutation_refl.
+  - apply perm_trans with (x :: o :: remove_nth i r); [apply perm_skip, IH, H|apply perm_swap].
+Qed.
+
+Lemma take_req_perm : forall h r o h', take_req r h = Some (o, h') ->
+  Permutation (map snd h) (o :: map snd h').
+Proof.
+  induction h as [|[r' o'] t IH]; intros r o h' H; simpl in H; [discriminate|].
+  destruct (Nat.eqb r r').
+  - inversion H; subst. apply Permutation_refl.
+  - destruct (take_req r t) as [[o2 t2]|] eqn:E; [|discriminate]. inversion H; subst.
+    simpl. apply perm_trans with (o' :: o :: map snd t2); [apply perm_skip, (IH _ _ _ E)|apply perm_swap].
+Qed.
+
+Lemma pstep_inv : forall st e, pinv st -> pinv (pstep releases_code st e).
+Proof.
+  intros st e [ND LT]. unfold pinv, pobjs in *. destruct e as [r pick|r p]; simpl.
+  - destruct (nth_error (ppool st) pick) as [o|] eqn:E; simpl.
+    + assert (P : Permutation (map snd (pheld st) ++ ppool st)
+                              (o :: map snd (pheld st) ++ remove_nth pick (ppool st))).
+      { apply perm_trans with (map snd (pheld st) ++ o :: remove_nth pick (ppool st)).
+        - apply Permutation_app_head, nth_remove_perm, E.
+        - apply Permutation_sym, Permutation_middle. }
+      split; [eapply Permutation_NoDup; eauto|eapply Permutation_Forall; eauto].
+    + split.
+      * constructor; [|exact ND]. intro I. rewrite Forall_forall in LT. specialize (LT _ I). lia.
+      * constructor; [lia|]. eapply Forall_impl; [|exact LT]. simpl; intros; lia.
+  - destruct (take_req r (pheld st)) as [[o h']|] eqn:E; [|split; assumption]. simpl.
+    assert (P : Permutation (map snd (pheld st) ++ ppool st) (map snd h' ++ o :: ppool st)).
+    { apply perm_trans with ((o :: map snd h') ++ ppool st).
+      - apply Permutation_app_tail, (take_req_perm _ _ _ _ E).
+      - simpl. apply Permutation_middle. }
+    split; [eapply Permutation_NoDup; eauto|eapply Permutation_Forall; eauto].
+Qed.
+
+(* whatever the order of starts and ends, whatever path each request leaves by, whatever object Get
+   hands out: no filter object is held by two requests, none that is held is in the pool, and the
+   pool holds none twice *)
+Lemma pool_exclusive : forall evs,
+  NoDup (map snd (pheld (prun releases_code evs)) ++ ppool (prun releases_code evs)).
+Proof.
+  intros evs. unfold prun.
+  assert (G : forall evs st, pinv st -> pinv (fold_left (pstep releases_code) evs st)).
+  { induction evs0 as [|e r IH]; intros st H; simpl; [exact H|apply IH, pstep_inv, H]. }
+  apply (G evs (mkPS [] [] 0)). split; constructor.
+Qed.
+
+Lemma pool_double_release_refuted :
+  exists evs r1 r2 o, r1 <> r2 /\
+    In (r1, o) (pheld (prun releases_dbl evs)) /\ In (r2, o) (pheld (prun releases_dbl evs)).
+Proof.
+  exists [PAcquire 0 0; PFinish 0 PCancelled; PAcquire 1 0; PAcquire 2 0], 1, 2, 0.
+  split; [discriminate|]. vm_compute. auto.
+Qed.
